@@ -28,6 +28,10 @@ if TYPE_CHECKING:
 
 T = TypeVar("T")
 
+_DECODING_ERRORS: Final[tuple[type[Exception], ...]] = (ValueError, ArithmeticError, LookupError, struct.error)
+"""Exception types raised while decoding damaged data (ValueError includes UnicodeDecodeError, ArithmeticError includes
+OverflowError, LookupError includes KeyError and IndexError). InvalidPyodaDataError is none of these."""
+
 
 @final
 @_sealed
@@ -175,18 +179,22 @@ class _TzdbStreamData:
         """
         _Preconditions._check_not_null(id_, "id_")
         _Preconditions._check_not_null(canonical_id, "canonical_id")
-        with self.__zone_fields[canonical_id]._create_stream() as stream:
-            reader = _DateTimeZoneReader._ctor(stream, self.__string_pool)
-            # Skip over the ID before the zone data itself
-            reader.read_string()
-            type_ = _DateTimeZoneWriter._DateTimeZoneType(reader.read_byte())
-            match type_:
-                case _DateTimeZoneWriter._DateTimeZoneType.FIXED:
-                    return _FixedDateTimeZone.read(reader, id_)
-                case _DateTimeZoneWriter._DateTimeZoneType.PRECALCULATED:
-                    return _CachedDateTimeZone._for_zone(_PrecalculatedDateTimeZone._read(reader, id_))
-                case _:
-                    raise InvalidPyodaDataError(f"Unknown time zone type {type_.name}")
+        try:
+            with self.__zone_fields[canonical_id]._create_stream() as stream:
+                reader = _DateTimeZoneReader._ctor(stream, self.__string_pool)
+                # Skip over the ID before the zone data itself
+                reader.read_string()
+                type_ = _DateTimeZoneWriter._DateTimeZoneType(reader.read_byte())
+                match type_:
+                    case _DateTimeZoneWriter._DateTimeZoneType.FIXED:
+                        return _FixedDateTimeZone.read(reader, id_)
+                    case _DateTimeZoneWriter._DateTimeZoneType.PRECALCULATED:
+                        return _CachedDateTimeZone._for_zone(_PrecalculatedDateTimeZone._read(reader, id_))
+                    case _:
+                        raise InvalidPyodaDataError(f"Unknown time zone type {type_.name}")
+        except _DECODING_ERRORS as e:
+            # Values decoded from damaged data fail validation (or lookups) in many places; report them all as invalid data.
+            raise InvalidPyodaDataError(f"Invalid data for time zone {canonical_id}: {e}") from e
 
     @staticmethod
     def _check_not_null(input_: T | None, name: str) -> T:
@@ -198,14 +206,18 @@ class _TzdbStreamData:
     def _from_stream(cls, stream: BinaryIO) -> _TzdbStreamData:
         _Preconditions._check_not_null(stream, "stream")
 
-        version = struct.unpack("i", stream.read(4))[0]
-        if version != cls.__ACCEPTED_VERSION:
-            raise InvalidPyodaDataError(f"Unable to read stream with version {version}")
+        try:
+            version = struct.unpack("i", stream.read(4))[0]
+            if version != cls.__ACCEPTED_VERSION:
+                raise InvalidPyodaDataError(f"Unable to read stream with version {version}")
 
-        builder = cls._Builder()
-        for field in _TzdbStreamField._read_fields(stream):
-            handler = cls.__FIELD_HANDLERS.get(field.id)
-            if handler:
-                handler(builder, field)
+            builder = cls._Builder()
+            for field in _TzdbStreamField._read_fields(stream):
+                handler = cls.__FIELD_HANDLERS.get(field.id)
+                if handler:
+                    handler(builder, field)
 
-        return cls(builder)
+            return cls(builder)
+        except _DECODING_ERRORS as e:
+            # Truncated headers, unknown field ids, undecodable strings, out-of-range values...
+            raise InvalidPyodaDataError(f"Invalid time zone data: {e}") from e
